@@ -32,9 +32,9 @@ def confirm(wt, pid, x):
     try:
         # unchanged tree: demo passes
         if has_demo:
-            rc, out = sh(["cargo", "test", "--offline", "--features", "verif", "--test", demo_name], wt)
+            rc, out = sh(["cargo", "test", "--offline", "--features", "verif,csv,arrow,parquet", "--test", demo_name], wt)
             res["demo_passes_unchanged"] = rc == 0
-            ran.append(f"unchanged tree: cargo test --offline --features verif --test {demo_name} -> rc {rc}")
+            ran.append(f"unchanged tree: cargo test --offline --features verif,csv,arrow,parquet --test {demo_name} -> rc {rc}")
         rc, out = sh(["git", "apply", patch], wt)
         assert rc == 0, out
         builds = []
@@ -44,9 +44,9 @@ def confirm(wt, pid, x):
             ran.append("with change: cargo build --offline " + " ".join(feats) + f" -> rc {rc}")
         res["builds"] = all(builds)
         if has_demo:
-            rc, out = sh(["cargo", "test", "--offline", "--features", "verif", "--test", demo_name], wt)
+            rc, out = sh(["cargo", "test", "--offline", "--features", "verif,csv,arrow,parquet", "--test", demo_name], wt)
             res["demo_fails_with_change"] = rc != 0
-            ran.append(f"with change: cargo test --offline --features verif --test {demo_name} -> rc {rc}")
+            ran.append(f"with change: cargo test --offline --features verif,csv,arrow,parquet --test {demo_name} -> rc {rc}")
             os.remove(os.path.join(wt, "tests", demo_name + ".rs"))
         rc, out = sh(TEST_CMD, wt)
         m = re.search(r"(\d+) tests run: (\d+) passed", out)
